@@ -258,6 +258,85 @@ where
     }
     leaked_claim_case::<A, MA, UP, GA, DE, SH, MCS>(ctx);
     by_value_lowered_case::<A, MA, UP, GA, DE, SH, MCS>(ctx);
+    by_value_replay_case::<A, MA, UP, GA, DE, SH, MCS>(ctx);
+}
+
+/// C03, after the trace proper (direct oracle only): inside a scope, a BY-VALUE copy of the scope allocates so much that it
+/// moves on through further chunks while the scope itself stays where it was; the scope is left; the same workload is run
+/// again in a new scope.  The chunks acquired the first time remain available: the second run makes no base-allocator request,
+/// and after each scope the allocator is exactly where it was before it.
+fn by_value_replay_case<A, const MA: usize, const UP: bool, const GA: bool, const DE: bool, const SH: bool, const MCS: usize>(ctx: &mut Ctx)
+where
+    A: TestBase + BaseAllocator<Bool<GA>>,
+    MinimumAlignment<MA>: SupportedMinimumAlignment,
+{
+    use bump_scope::traits::{BumpAllocatorScope, BumpAllocatorTypedScope};
+    if !(ctx.prof.name == "scopes" || ctx.rng.chance(1, 12)) {
+        return;
+    }
+    BASE.with(|b| b.borrow_mut().reset(ctx.rng.next()));
+    let Ok(mut bump) = Bump::<A, S<MA, UP, GA, DE, SH, MCS>>::try_with_size_in(MCS, A::default()) else {
+        let _ = take_base_log();
+        return;
+    };
+    ctx.count("by-value copy spills into later chunks inside a scope; workload repeated");
+    let ways = ctx.rng.below(3);
+    let n1 = 1 + ctx.rng.below(40) as usize;
+    let r = catch_unwind(AssertUnwindSafe(|| {
+        let _ = bump.as_mut_scope().alloc_slice_fill(n1, 7u8); // something live outside the scopes
+        let before = {
+            let s = bump.stats();
+            (s.allocated(), s.current_chunk().map(|c| c.bump_position().as_ptr() as usize))
+        };
+        let mut calls = Vec::new();
+        let mut after = Vec::new();
+        for _round in 0..3 {
+            let c0 = BASE.with(|b| b.borrow().alloc_calls);
+            {
+                let scope = bump.as_mut_scope();
+                let mut work = |s: &mut bump_scope::BumpScope<'_, A, S<MA, UP, GA, DE, SH, MCS>>| {
+                    let cap = s.stats().current_chunk().map(|c| c.capacity()).unwrap_or(MCS);
+                    let copy = s.by_value();
+                    let _ = copy.alloc_slice_fill(cap + 100, 1u8); // does not fit: second chunk
+                    let _ = copy.alloc_slice_fill(3 * cap + 1000, 2u8); // third chunk
+                    let _ = copy.alloc_slice_fill(17, 3u8);
+                };
+                match ways {
+                    0 => scope.scoped(|mut inner| work(&mut inner)),
+                    1 => {
+                        let mut guard = scope.scope_guard();
+                        work(guard.scope());
+                    }
+                    _ => {
+                        let mut guard = scope.scope_guard();
+                        work(guard.scope());
+                        guard.reset();
+                    }
+                }
+            }
+            calls.push(BASE.with(|b| b.borrow().alloc_calls) - c0);
+            let s = bump.stats();
+            after.push((s.allocated(), s.current_chunk().map(|c| c.bump_position().as_ptr() as usize)));
+        }
+        (before, calls, after)
+    }));
+    if let Ok((before, calls, after)) = r {
+        if calls[1] != 0 || calls[2] != 0 {
+            ctx.oracle(
+                "C03",
+                format!("BYVALUE-REPLAY a by-value copy of the scope moved through further chunks inside a scope; repeating the same workload in a new scope made {} and then {} new request(s) to the base allocator (first run: {})", calls[1], calls[2], calls[0]),
+            );
+        }
+        for (k, a) in after.iter().enumerate() {
+            if *a != before {
+                ctx.oracle("C03", format!("BYVALUE-REPLAY after scope {k} (workload through a by-value copy) the allocator is at {:?}, before the scope it was at {:?}", a, before));
+                break;
+            }
+        }
+    }
+    let _ = take_base_log();
+    drop(bump);
+    let _ = take_base_log();
 }
 
 /// C18, after the trace proper (direct oracle only): a by-value copy of a scope lowers the minimum alignment with
